@@ -13,12 +13,14 @@ E1_ADD = (' Every E1 plan additionally executes the witnesses and solver-generat
           'exclusive-monitor traffic, trapped coprocessor accesses, direct exception returns with single-bit PSR changes, the same word in both instruction sets, and what an embedder does between steps: system registers written through the API, the register file swapped for a deep copy, asynchronous aborts, carrying on after a NotImplementedError), every step compared with the reference; '
           'metamorphic embedder-level relations (a deep copy taken before programming stays untouched, a decoded opcode object executed again on two instances, an embedder-defined RAM subclass, large / odd-boundary devices).')
 ADD = {
+    'C02': ' The same rows also run under generated page tables (C15\'s builder) and MPU regions (C14\'s builder): every byte of an unaligned access is translated and checked on its own.',
+    'C13': ' The load/store rows also run under generated page tables and MPU regions (permission boundaries inside an access).',
     'C06': ' Operand extraction: paths THROUGH from_bitarray of every selected class and through the reference operand decode are enumerated too (every branch negated in turn) plus the words next to every constant an order comparison used; field-corner words per row under arch 4/5/6/7 and a strict pass with VFP/SIMD configured; running decode (same word twice on one instance).',
     'C07': ' Operand extraction: paths THROUGH from_bitarray of every selected class and through the reference operand decode are enumerated too (every branch negated in turn) plus the words next to every constant an order comparison used; field-corner words per row under arch 4/5/6/7 and a strict pass with VFP/SIMD configured; running decode (same word twice on one instance).',
     'C08': ' Entries caused by instructions (SVC, UDF, BKPT, SMC, trapped WFI / WFE / coprocessor accesses, aborting loads) are also taken inside IT blocks with a passing condition on every configuration.',
     'C15': ' Also: long-descriptor cells for the Hyp translation regime (HTTBR / HTCR / HMAIR, faults reported in HSR / HDFAR), Non-secure guest cells under generated stage-2 tables (stage 1 off or short descriptors; faults on the output address and on the stage-1 walk with HSR / HDFAR / HPFAR), 32-bit Thumb instructions across a page boundary.',
     'C17': ' Field-view histories: field reads, field writes, whole-register writes and slice writes interleaved on one long-lived register object per class; every register class constructed under a configuration that gives it a reset value.',
-    'C10': ' A second E1 plan runs every other encoding row at the 2^31/2^32 operand edges (range invariant after every instruction, also for unmodelled outcomes).',
+    'C10': ' A second E1 plan runs every other encoding row at the 2^31/2^32 operand edges (range invariant after every instruction, also for unmodelled outcomes). The banking machine also performs register dumps over all mode numbers; the examples of a shard share one process, so state kept at class or module level by one configuration meets instances of another.',
     'C11': ' The same entries are also caused by instructions (SVC, UDF, SMC, BKPT, trapped WFI/WFE/coprocessor accesses, aborting loads) through emulate_cycle(); ThumbEE interrupted states; implementation-defined vectors at 0.',
     'C12': ' Plus direct calls of cpsr_write_by_instr / spsr_write_by_instr over configuration x mode x 16 byte masks x return flag x NMFI/AW/FW/RFR, and reference-free entry + canonical-return round trips.',
     'C16': ' Devices and accesses cover the 40-bit physical space, maps of up to 12 devices, from_memory_list called twice with the same list, instruction-level edge steps with a value differential.',
